@@ -519,6 +519,33 @@ func c02Run(c *mc.Ctx) {
 		rows  [][]string
 	}
 	fams := []fam{{false, c02Contents(maxRows, lens)}, {true, c02MenuContents(maxRows, mlens)}}
+	// a family of longer lists (6-8 rows of 8-10 bytes, the size of a real listing): every output size, walked in both
+	// operation modes - at these sizes a page that was refused can be laid out again with the same page count
+	if c.Mine() {
+		long := []string{"one 1111", "two 2222", "three 3333", "four 4444", "five 5555", "six 6666", "seven 7777", "eight 8888"}
+		for n := 6; n <= 8; n++ {
+			for _, tpl := range []int{0, 1} {
+				for _, mode := range []string{"long-lived", "persisted"} {
+					g := c02Cfg{Rows: long[:n], Tpl: tpl, Menu: 1, Next: true, Prev: true, Mode: mode}
+					tot := g.total()
+					for sz := 20; sz <= tot+3; sz++ {
+						g.Size = uint32(sz)
+						sig, msg, reqs := c02Walk(g, func(pages int, vac bool) {
+							if !vac && pages >= 3 {
+								c.Count("walks_with_3_or_more_pages", 1)
+								c.Count("long_list_walks_with_3_or_more_pages", 1)
+							}
+						})
+						c.Count("evaluations", 1)
+						c.Count("transitions", int64(reqs))
+						if sig != "" {
+							c.Fail(sig, msg, g)
+						}
+					}
+				}
+			}
+		}
+	}
 	for _, f := range fams {
 		for _, rows := range f.rows {
 			if !c.Mine() {
